@@ -102,16 +102,7 @@ let () =
                 if straight then "bypass"
                 else match ideal_kept !g (n (i sb)) (n (i db)) v with
                   | Found _ -> "bypass" | NoPath -> "nobypass" | OutOfFuel -> "outoffuel" in
-              (* is the drop caused ONLY by the duplicated last block of the found path? *)
-              let dup =
-                if straight then false
-                else match find_path !g (n (i sb)) (n (i db)) with
-                  | Found raw ->
-                    let proper = (match List.rev raw with _ :: r -> List.rev r | [] -> []) in
-                    edge_dropped (as_predicate_to (simple_path_condition !g raw) v)
-                    && not (edge_dropped (as_predicate_to (simple_path_condition !g proper) v))
-                  | _ -> false in
-              Printf.printf "RI %s = %s%s\n" key verdict (if dup then " dup" else "")
+              Printf.printf "RI %s = %s\n" key verdict
             | "t" -> Printf.printf "RE %s =  ; d=0\n" key
             | _ -> Printf.printf "RE %s = unmodelled\n" key)
          | "E" :: _ ->
